@@ -289,6 +289,10 @@ def run(ctx):
     # ------------------------------------------------------------------ R15.10 (generic, scoped to this property's anchors)
     sm.rule_named_plumbing(ctx, mir, "C15", "R15.10", floor=361)
 
+    # ------------------------------------------------------------------ R15.11 (= R04.14; the arithmetic-assertion part is the C15 clause)
+    from .c04 import rule_hash_codes
+    rule_hash_codes(ctx, mir, idx, rid="R15.11")
+
     ctx.not_decided += ["absence of panics / overflow for all inputs (only the accounting and guards of panic-capable constructs are decided)", "stack exhaustion inside the selectors / cssparser crates", "running-time bounds beyond progress of the state machine"]
     ctx.assumptions += ["reviewed entries of spec/panic_sites.json are guarded as stated there", "recursion detection follows resolved calls and closure creation; calls through generic trait bounds (type-structural recursion such as Option<T>::align) are not followed"]
     return ("Structural part only: progress of the tokenizer automaton for each of the 257 input symbols, must-typestate of the actions' "
